@@ -100,7 +100,9 @@ func (c *cache) flushScheduler() {
 					case <-c.closeCh:
 						return
 					}
-					b = sortedAddrs[i:i]
+					// The next batch starts right after the sent one: the
+					// current address may have been a part of it already.
+					b = b[len(b):]
 					bs = 0
 				}
 				if handledAddr {
